@@ -18,6 +18,7 @@ mod interp;
 mod powertrain;
 mod ksp;
 mod output;
+mod state;
 
 fn main() {
     // panics of the code under test are recorded as events by util::guarded; keep stderr quiet
@@ -47,6 +48,7 @@ fn main() {
         "powertrain" => powertrain::main(rest),
         "ksp" => ksp::main(rest),
         "output" => output::main(rest),
+        "state" => state::main(rest),
         "ksp-child" => ksp::child(&rest[0]),
         "robust-child" => robust::child(&rest[0]),
         other => {
